@@ -54,11 +54,13 @@ pub struct World {
     pub cost_lists: BTreeMap<u8, Vec<i128>>,
 }
 
-pub const N_OUTPOINTS: usize = 16;
+pub const N_OUTPOINTS: usize = 20;
 pub fn op_outpoint(i: usize) -> TransactionInput {
     // adversarial order: hashes ff.., 00.., 7f.., 80.. with indices that do not sort like the list
     const T: [(u8, u32); N_OUTPOINTS] = [
         (0xff, 0), (0x00, 1), (0x00, 0), (0x7f, 65535), (0x80, 256), (0x00, 24), (0x7f, 2), (0xfe, 9), (0x01, 0), (0x80, 1), (0x10, 23), (0xc0, 7), (0x20, 3), (0x30, 4), (0x40, 5), (0x50, 6),
+        // 16, 17: the UTxOs holding reference scripts; 18, 19: explicit reference inputs
+        (0x21, 3), (0x31, 4), (0x41, 5), (0x51, 6),
     ];
     TransactionInput::new(&txhash(T[i].0), T[i].1)
 }
@@ -132,6 +134,9 @@ impl World {
             UtxoSpec { owner: Owner::Key(1), base: false, coin: 70_000, assets: vec![] },
             UtxoSpec { owner: Owner::Native(1), base: false, coin: 3_500_000, assets: vec![] },
             UtxoSpec { owner: Owner::Plutus(2), base: false, coin: 4_500_000, assets: vec![] },
+            // 12, 13: a second UTxO at the Byron address of 5, and another Byron address
+            UtxoSpec { owner: Owner::Byron(0), base: false, coin: 3_200_000, assets: vec![] },
+            UtxoSpec { owner: Owner::Byron(1), base: false, coin: 3_300_000, assets: vec![] },
         ];
         for (i, s) in specs.into_iter().enumerate() {
             let addr = match &s.owner {
@@ -275,7 +280,7 @@ impl St {
 }
 
 pub const WD_AMOUNT: [u64; 4] = [5_000_000, 1_000_000, 0x1_0000_0000, 1_500_000];
-pub const REF_SCRIPT_OUTPOINT: usize = 12;
+pub const REF_SCRIPT_OUTPOINT: usize = 16;
 pub const REF_SCRIPT_SIZE: usize = 600;
 
 fn redeemer_for(tag: RedeemerTag, marker: u64) -> Redeemer {
@@ -597,8 +602,8 @@ pub fn setup(w: &World, st: &St, params: &Params) -> Result<TransactionBuilder, 
     }
     for r in &st.m.ref_inputs {
         match r {
-            0 => tb.add_reference_input(&op_outpoint(13)),
-            1 => tb.add_script_reference_input(&op_outpoint(14), 30_000),
+            0 => tb.add_reference_input(&op_outpoint(18)),
+            1 => tb.add_script_reference_input(&op_outpoint(19), 30_000),
             // the caller knows that UTxO 1 carries a 20 000-byte reference script and declares it
             3 => tb.add_script_reference_input(&op_outpoint(1), 20_000),
             _ => tb.add_reference_input(&op_outpoint(0)),
@@ -782,7 +787,7 @@ pub fn ref_script_total(t: &PTx, st: &St) -> u64 {
             total += REF_SCRIPT_SIZE as u64;
         } else if *op == op_outpoint_key(REF_SCRIPT_OUTPOINT + 1) {
             total += 40;
-        } else if *op == op_outpoint_key(14) {
+        } else if *op == op_outpoint_key(19) {
             total += 30_000;
         } else if *op == op_outpoint_key(1) && st.m.ref_inputs.contains(&3) {
             total += 20_000;
@@ -808,7 +813,7 @@ pub fn ops_for(prop: &str) -> Vec<Op> {
             Op::Fee(0), Op::Fee(1), Op::Fee(2), Op::Fee(3), Op::Coll(1), Op::Meta, Op::RefIn(1), Op::RefIn(3),
         ],
         "C18" | "C16" => vec![
-            Op::In(0, 0), Op::In(2, 0), Op::In(1, 0), Op::In(5, 0), Op::In(6, 0), Op::In(6, 1), Op::In(10, 0), Op::In(7, 0), Op::In(7, 1), Op::In(11, 0), Op::In(8, 0),
+            Op::In(0, 0), Op::In(2, 0), Op::In(1, 0), Op::In(5, 0), Op::In(13, 0), Op::In(12, 0), Op::In(6, 0), Op::In(6, 1), Op::In(10, 0), Op::In(7, 0), Op::In(7, 1), Op::In(11, 0), Op::In(8, 0),
             Op::Out(0), Op::Coll(1), Op::Coll(0), Op::Cert(5), Op::Cert(7), Op::Cert(8), Op::Cert(6), Op::Cert(13), Op::Cert(25),
             Op::Wd(0), Op::Wd(1), Op::Wd(3), Op::Vote(0), Op::Vote(1), Op::Vote(2), Op::Vote(3), Op::Vote(4),
             Op::Mint(0), Op::Mint(2), Op::ReqSigner(3), Op::ReqSigner(0), Op::RefIn(0), Op::RefIn(1), Op::RefIn(2), Op::ExtraDatum(0), Op::ExtraDatum(1), Op::ExtraDatum(3), Op::Meta,
